@@ -58,6 +58,8 @@ def panel_spec(draw, max_geos=6, min_geos=1, max_dates=30, flat=False):
       'offset': 0 if near else draw(st.sampled_from([0, 0, 0, 0, 2 ** 24, 2 ** 26])),
       # readings stamped at noon instead of midnight
       'hour': draw(st.sampled_from([0, 0, 0, 12])),
+      # response column in a pandas nullable dtype
+      'resp_dtype': draw(st.sampled_from([None, None, None, None, None, None, 'Float64', 'Int64'])),
       # the whole panel in another unit (per-mille shares ... micro-currency): exact powers of two
       'unit_k': draw(st.sampled_from([0, 0, 0, 0, 0, 0, -24, -12, 20, 30])),
       # geo column dtype: Python ints / ints and strings in an object column, pandas string dtype
